@@ -40,6 +40,8 @@ func (c *Client) Ping(ctx context.Context) (err error) {
 		b.Encode(proto.ClientCodePing)
 	})
 	if err := c.flush(ctx); err != nil {
+		// Drop unsent ping, otherwise it will be sent with the next request.
+		c.writer.Reset()
 		return errors.Wrap(err, "flush")
 	}
 	p, err := c.packet(ctx)
